@@ -26,7 +26,9 @@ fresh memory, rows read at the captured lines — and composes with C02:
   σ(data line of x))`, σ any (= the unique, `loc_labelling_unique`) labelling consistent with the netlist under the assignment
   `loc_assignment_state/_input/_rest`; every well-formed netlist, topological order, chain / marker / pattern set;
 * `s_nodes_bridge`: the STIL model's `Circ` and the netlist `Net` have the same `s_nodes` when `compatB` (same `io_nodes`, same
-  node list) holds; `nxtOf_has_shape`; `driver_evaluates_nxtOf`: the driver's array executor computes `nxtOf`.
+  node list) holds; `nxtOf_has_shape`; `driver_evaluates_nxtOf`: the driver's array executor computes `nxtOf`;
+  `nxtOf_memory`: the memory row `c_to_s` reads for position `i` under the map of the `SimOps` model (no `c_reuse`, no
+  `strip_forks`, any capacities) is entry `i` of the model's column (composition with C08).
 **Correspondence for the composition:** `nxtOf` = `bp_to_mv(s[1])` of the LogicSim inside the real `tests_loc` (recorded, and
 recomputed on the init matrix) and `tests_loc` of the model with `nxtOf` = the real result, on every generated case; `compatB`,
 `wfB`, `orderOKB`, `forksOKB` evaluated by the driver on every real circuit and order. Not theorem: that `SimOps.__init__` /
@@ -526,6 +528,29 @@ theorem tests_loc_end_to_end_input (c : Circ) (fl : File) (net : Net) (names : L
     unfold valOf at this
     rw [this]
 
+/-- **memory level.** `nxtOf` is stated on signals; what `c_to_s` reads is a memory row.  For the tables the `SimOps` model
+builds with the options of `tests_loc` (`strip_forks = False`, `c_reuse = False`; any capacity vector, `c_caps_min > 0`), after
+the op rows have run ON MEMORY from any initial memory `m0` that holds the stimulus in the slots no row writes (`h0`: what
+`np.zeros` + `s_to_c` leave), the row of the output slot of the `i`-th `s_nodes` element is the entry `i` of the model's column
+(composition with `C08.simops_map_accepted` through `simops_mem_value`; domain `readsDrivenB`: every read or captured line is
+written by a row) -/
+theorem nxtOf_memory (net : Net) (order : List Nat) (capsIn : Nat → Nat) (capsMin : Nat) (hwf : net.wfB = true)
+    (ho : orderOKB net order = true) (hr : readsDrivenB Gen.kindPrefixes net order = true) (hpos : 0 < capsMin)
+    (col : List V3) (m0 : Int → V3)
+    (h0 : ∀ x ∈ (simopsMap Gen.kindPrefixes net order false capsIn capsMin false).tracked,
+      (∀ o ∈ (simopsMap Gen.kindPrefixes net order false capsIn capsMin false).ops, o.out ≠ x) →
+        m0 ((simopsMap Gen.kindPrefixes net order false capsIn capsMin false).loc x) = envOf net col x)
+    (n i l : Nat) (hn : (n, i) ∈ net.sNodes.zipIdx) (hl : (net.node n).inPin 0 = some l) :
+    MapSound.memRun (simopsMap Gen.kindPrefixes net order false capsIn capsMin false) (MapSound.rowRW V3)
+        (fun o => semL8 o.lut) (simopsMap Gen.kindPrefixes net order false capsIn capsMin false).ops m0
+        ((simopsMap Gen.kindPrefixes net order false capsIn capsMin false).loc (net.idx.ppo + i)) =
+      (simRow semL8 (ops8 net order) net col).getD i V3.unknown := by
+  have hi : net.sNodes[i]? = some n := mem_zipIdx_getElem? hn
+  have hlt : i < net.sNodes.length := (List.getElem?_eq_some_iff.mp hi).1
+  rw [simRow_getD _ _ _ _ _ _ hlt, captured_pin hi hl]
+  exact simops_mem_value Gen.kindPrefixes net order false capsIn capsMin false hwf ho (fun h => by cases h) hr hpos semL8 default
+    (fun h => by cases h) m0 (envOf net col) h0 n i l hn hl
+
 /-! ## non-vacuity: a chain with markers at both ends and adjacent markers, lower-case `dff`, a latch -/
 def exC : Circ := ⟨["a", "si", "z", "so"], [("f0", "DFF"), ("g", "AND2"), ("f1", "dff"), ("l0", "LATCH"), ("f2", "SDFFX1")]⟩
 def exChain : Chain := ⟨"si", ["!", "f0", "!", "!", "f1", "f2", "!"], "so"⟩
@@ -646,6 +671,20 @@ example : ∃ col, e2eLoc[0]? = some col ∧ e2eC.sNodes[e2eC.sNodes.idxOf "a"]?
     e2e_hyps.1 e2e_hyps.2.1 e2e_hyps.2.2.1 e2e_hyps.2.2.2 e2e_loc (by decide +kernel) (by decide +kernel)
     (by decide +kernel) (by decide +kernel) (by decide +kernel) (fun _ => by decide +kernel)
     (loc_labelling_unique e2eNet e2eOrder e2e_hyps.1 e2e_hyps.2.1 e2e_hyps.2.2.1 _).1 (by decide +kernel) (by decide +kernel)
+
+/-- hypotheses of `nxtOf_memory` on the example (capacity 1 everywhere): the initial memory holds the stimulus in the input
+    slots (`a` at location 3, `si` at 4, `f0` at 5, `f1` at 6, the constant 0 at 0); the output slot of `f1` (position 5, node 3,
+    data line 3) then holds entry 5 of the model's column, the plain 0 -/
+def e2eM0 : Int → V3 := fun a => if a = 4 then ppulse else if a = 5 ∨ a = 6 then V3.one else V3.zero
+theorem e2eM0_ok : ∀ x ∈ (simopsMap Gen.kindPrefixes e2eNet e2eOrder false (fun _ => 1) 1 false).tracked,
+    (∀ o ∈ (simopsMap Gen.kindPrefixes e2eNet e2eOrder false (fun _ => 1) 1 false).ops, o.out ≠ x) →
+      e2eM0 ((simopsMap Gen.kindPrefixes e2eNet e2eOrder false (fun _ => 1) 1 false).loc x) =
+        envOf e2eNet (initCol (mapsPure .spec e2eC e2eF) e2eP) x := by decide +kernel
+example : MapSound.memRun (simopsMap Gen.kindPrefixes e2eNet e2eOrder false (fun _ => 1) 1 false) (MapSound.rowRW V3)
+      (fun o => semL8 o.lut) (simopsMap Gen.kindPrefixes e2eNet e2eOrder false (fun _ => 1) 1 false).ops e2eM0
+      ((simopsMap Gen.kindPrefixes e2eNet e2eOrder false (fun _ => 1) 1 false).loc (e2eNet.idx.ppo + 5)) = V3.zero :=
+  (nxtOf_memory e2eNet e2eOrder (fun _ => 1) 1 e2e_hyps.1 e2e_hyps.2.1 (by decide +kernel) (by decide) _ e2eM0 e2eM0_ok 3 5 3
+    (by decide +kernel) (by decide +kernel)).trans (by decide +kernel)
 
 /-- finding D12 as a model statement: chain `f0 ! f1 f2`, load `100`: the property asks for f0 = 0, the as-found
 variant (first flag only) gives f0 = 1 -/
